@@ -122,6 +122,11 @@ theorem punctOf_question : punctOf "?" = some ("ExprIf", 5) := by decide
 theorem punctOf_lpar : punctOf "(" = some ("OpenPar", 200) := by decide
 theorem punctOf_lbrak : punctOf "[" = some ("OpenBrak", 300) := by decide
 
+theorem hrName_reserved {n : String} (h : hrName n = true) : reservedName n = false := by
+  unfold hrName at h
+  simp only [Bool.and_eq_true, Bool.not_eq_true'] at h
+  exact h.1
+
 /-- the shapes of the hand-modelled forms, as the regenerated printer table gives them -/
 theorem shapeOf_symbol : shapeOf .symbol = some .sym := by decide
 
